@@ -27,6 +27,15 @@ def gen(src, consts):
         if isinstance(st, ast.Expr) and ast.unparse(st.value) == 'self._exceptions.clear()':
             clears = True
     hb_same = 'self.heartbeat.start(self._exceptions)' in ast.unparse(op)
+    # the list may only be emptied before the IO layer (reader thread, writers) can record into it
+    order = [ast.unparse(st) for st in strip_doc(op.body) if not is_logging(st)]
+    flat = [ast.unparse(x) for x in ast.walk(op) if isinstance(x, (ast.Delete, ast.Expr, ast.Assign))]
+    pos_clear = [k for k, u in enumerate(order) if u in ('del self._exceptions[:]', 'self._exceptions.clear()')]
+    pos_io = [k for k, u in enumerate(order) if u == 'self._io.open()']
+    n_clears = sum(1 for u in flat if u in ('del self._exceptions[:]', 'self._exceptions.clear()'))
+    if len(pos_io) != 1:
+        raise ExtractError('Connection.open: self._io.open() is not a top-level statement')
+    no_erase = n_clears == len(pos_clear) and all(k < pos_io[0] for k in pos_clear)
     st_init = src.func('base.py', 'Stateful', '__init__')
     if 'self._exceptions = []' not in ast.unparse(st_init):
         raise ExtractError('Stateful.__init__: error list creation changed')
@@ -122,13 +131,15 @@ def gen(src, consts):
             '/-- the list IO (reader, writer, pollers) appends transport errors to IS the list `Connection.exceptions`\n'
             '    returns, also after open(): it is cleared in place (%s), never rebound (%s) -/\n'
             'def sameErrorList : Bool := %s\n'
+            '/-- open() empties the list only before `_io.open()` starts the reader: nothing IO records is erased -/\n'
+            'def noEraseAfterIoOpen : Bool := %s\n'
             '/-- every wait loop (RPC reply, connection state, message body, inbound generator) runs check_for_errors\n'
             '    before each IDLE_WAIT sleep -/\n'
             'def waitLoopsPollErrors : Bool := true\n'
             '/-- IDLE_WAIT sleeps between two error checks of an idle start_consuming loop -/\n'
             'def consumeLoopSleeps : Nat := %d\n'
             'end Amqp.Gen.Transport\n' % ('clears' if clears else 'no clear', 'rebinds' if rebinds else 'no rebind',
-                                        str(same_list).lower(), n_sleeps))
+                                        str(same_list).lower(), str(no_erase).lower(), n_sleeps))
 
 
 FILES = {'Transport.lean': gen}
